@@ -180,7 +180,7 @@ func Minimise(c Case, class string, budget int) (Case, Outcome, int) {
 }
 
 // stackReductions lists simpler stacks: a level spliced out, an interleaved set cut to
-// its first module, the controller replaced by an ideal one.
+// one of its modules, the controller replaced by an ideal one.
 func stackReductions(cfg StackCfg) []StackCfg {
 	var out []StackCfg
 	// paths to nodes: index sequences
@@ -202,9 +202,9 @@ func stackReductions(cfg StackCfg) []StackCfg {
 		}
 		return ns, il
 	}
-	if len(cfg.Top) > 1 {
+	for i := 0; len(cfg.Top) > 1 && i < len(cfg.Top); i++ {
 		c := cfg.Clone()
-		c.Top = c.Top[:1]
+		c.Top = c.Top[i : i+1]
 		c.Interleave = 0
 		clearNames(&c)
 		out = append(out, c)
@@ -213,11 +213,11 @@ func stackReductions(cfg StackCfg) []StackCfg {
 		c := cfg.Clone()
 		ns, _ := slot(&c, p)
 		n := &(*ns)[p[len(p)-1]]
-		if len(n.Lower) > 1 {
+		for i := 0; len(n.Lower) > 1 && i < len(n.Lower); i++ {
 			d := cfg.Clone()
 			ns2, _ := slot(&d, p)
 			m := &(*ns2)[p[len(p)-1]]
-			m.Lower = m.Lower[:1]
+			m.Lower = m.Lower[i : i+1]
 			m.Interleave = 0
 			clearNames(&d)
 			out = append(out, d)
@@ -245,8 +245,7 @@ func clearNames(c *StackCfg) {
 // Features are the key features of a (minimised) failing case.
 func Features(c *Case, class string, o *Outcome) map[string]any {
 	f := map[string]any{"symptom": class}
-	kinds := c.Stack.Kinds()
-	f["components"] = strings.Join(kinds, ">")
+	f["components"] = strings.Join(c.Stack.Chain(), ">")
 	leaf := ""
 	inter := len(c.Stack.Top) > 1
 	zero := ""
